@@ -34,10 +34,45 @@ macro_rules! alias_mod {
             pub fn check(ws: &[W], acc: &mut Acc, profile: &str) -> Option<(WeightedAliasIndex<W>, Vec<f64>)> {
                 tick();
                 let n = ws.len();
+                // documented outcome class of new(): InvalidInput (empty), InvalidWeight (negative, NaN, > MAX/len with
+                // integer division, 0 when len does not fit W), InsufficientNonZero (all zero), otherwise Ok
+                let zero: W = Default::default();
+                #[allow(unused_comparisons)]
+                let expected: Vec<&str> = {
+                    let mut e = vec![];
+                    if n == 0 {
+                        e.push("InvalidInput");
+                    }
+                    let max_w: W = if n == 0 {
+                        <$W>::MAX
+                    } else if IS_FLOAT {
+                        <$W>::MAX / (n as W)
+                    } else {
+                        let nn = n as W;
+                        if nn > zero && (nn as u128) == n as u128 { <$W>::MAX / nn } else { zero }
+                    };
+                    let bad = |w: &W| *w != *w || *w < zero || *w > max_w;
+                    if ws.iter().any(bad) {
+                        e.push("InvalidWeight");
+                    }
+                    if n > 0 && !ws.iter().any(|w| *w != *w || *w < zero) && ws.iter().all(|w| *w == zero) {
+                        e.push("InsufficientNonZero");
+                    }
+                    e
+                };
                 let d = match guarded(|| WeightedAliasIndex::new(ws.to_vec())) {
-                    Caught::Ok(Ok(d)) => d,
+                    Caught::Ok(Ok(d)) => {
+                        if !expected.is_empty() {
+                            viol(acc, "new_accepts_documented_error", ws, format!("new() returned Ok, documented: {}", expected.join("|")), profile);
+                        }
+                        d
+                    }
                     Caught::Ok(Err(e)) => {
-                        *acc.rejected.entry(format!("{e:?}")).or_insert(0) += 1;
+                        let name = format!("{e:?}");
+                        *acc.rejected.entry(name.clone()).or_insert(0) += 1;
+                        if !expected.iter().any(|x| *x == name) {
+                            viol(acc, "new_wrong_error_class", ws, format!("new() returned {name}, documented: {}", if expected.is_empty() { "Ok".to_string() } else { expected.join("|") }), profile);
+                        }
                         return None;
                     }
                     Caught::Panic(m) => {
@@ -229,11 +264,21 @@ macro_rules! alias_mod {
                 let lat = lattice();
                 let mut adv_execs = 0u64;
                 let special = [255usize, 256, 257, 127, 128, 129];
-                for c in 0..count {
-                    let len = if c < special.len() { special[c] } else if rng.below(4) == 0 { 1 + rng.below(maxlen as u64) as usize } else { 1 + rng.below(40) as usize };
-                    let ws = random_vector(&mut rng, len);
+                // small explicit vectors whose weight sums are tiny (a bias of 1 / (sum + 1) in the inner uniform draw
+                // is largest there): always sampled
+                let small: Vec<Vec<f64>> = vec![vec![1.0, 3.0], vec![1.0, 1.0], vec![2.0, 1.0, 1.0], vec![1.0, 0.0, 2.0], vec![1.0], vec![3.0, 1.0, 0.0, 1.0, 2.0], vec![1.0; 7], vec![5.0, 1.0]];
+                let n_small = small.len();
+                for c in 0..(count + n_small) {
+                    let ws: Vec<W> = if c < n_small {
+                        small[c].iter().map(|x| *x as W).collect()
+                    } else {
+                        let c = c - n_small;
+                        let len = if c < special.len() { special[c] } else if rng.below(4) == 0 { 1 + rng.below(maxlen as u64) as usize } else { 1 + rng.below(40) as usize };
+                        random_vector(&mut rng, len)
+                    };
+                    let len = ws.len();
                     let Some((d, law)) = check(&ws, &mut acc, profile) else { continue };
-                    if c % sample_every != 0 {
+                    if c >= n_small && (c - n_small) % sample_every != 0 {
                         continue;
                     }
                     // adversarial streams: index < n and non-zero weight
